@@ -4,7 +4,7 @@
    (correspondence on the real TimerQueue, ASan; the forced add-vs-fire schedule on the real code)
    and the generated fact Gen_C07.TimerQueue_addTimer_reads_seq_after_handoff. *)
 From Coq Require Import List ZArith Lia Bool.
-From Muduo Require Import Gen_Consts Gen_C06 Gen_C07 C06_Model C06_Proofs C06_Hist C06_Order C06_GenTie C06_Marshal C07_Model C07_Proofs.
+From Muduo Require Import Gen_Consts Gen_C06 Gen_C07 C06_Model C06_Proofs C06_Hist C06_Order C06_GenTie C06_Marshal C07_Model C07_Proofs C07_Width.
 Import ListNotations.
 Local Open Scope Z_scope.
 
@@ -147,6 +147,16 @@ Theorem C07_seq_unique : forall c ops st evs, run (init c) ops = Ok (st, evs) ->
   (forall a o, hget a (heap st) = Some o -> 0 < o_seq o <= next_seq st).
 Proof. exact seq_unique. Qed.
 Print Assumptions C07_seq_unique.
+
+(* the model's unbounded sequence numbers are faithful: every place the C++ carries a sequence in
+   (Timer::s_numCreated_, Timer::sequence_, TimerId::sequence_, ActiveTimer::second; widths regenerated
+   from the current headers) keeps every sequence below 2^63 unchanged, so the counter cannot wrap and
+   two live timers cannot get the same sequence (a 32-bit counter breaks this statement) *)
+Theorem C07_sequence_width_faithful : forall n, 0 <= n < 2 ^ 63 ->
+  swrap Timer_numCreated_bits n = n /\ swrap Timer_sequence_bits n = n /\
+  swrap TimerId_sequence_bits n = n /\ swrap TimerQueue_ActiveTimer_sequence_bits n = n.
+Proof. exact seq_width_faithful. Qed.
+Print Assumptions C07_sequence_width_faithful.
 
 (* ---- the id returned by an add (F-7) *)
 (* pinned order (sequence() read after the hand-off): a schedule with a use-after-free exists *)
